@@ -168,8 +168,8 @@ Definition is_upper_or_us (b : byte) : bool :=
   let n := b2N b in (N.leb 65 n && N.leb n 90) || N.eqb n 95.
 
 (* gix_validate::reference::validate, the part shared by Mode::Partial and Mode::Complete:
-   tag::name_inner in validating mode, then the single character `@` is refused (StandaloneAt) *)
-Definition ref_name_common (n : bytes) : bool := tag_name_ok n && negb (bytes_eqb n (bs "@")).
+   tag::name_inner in validating mode (the single character `@` is accepted, unlike git) *)
+Definition ref_name_common (n : bytes) : bool := tag_name_ok n.
 (* gix_validate::reference::name_partial *)
 Definition valid_partial_name (n : bytes) : bool := ref_name_common n.
 (* gix_validate::reference::name (Mode::Complete): without a slash all bytes must be upper case or `_` *)
